@@ -18,6 +18,7 @@ func main() {
 		vlib.Group{Name: "padtrim", Gen: genPadTrim},
 		vlib.Group{Name: "panics", Gen: genPanics},
 		vlib.Group{Name: "reset", Gen: genReset},
+		vlib.Group{Name: "views", Gen: genViews},
 		vlib.Group{Name: "long", Gen: genLong},
 		vlib.Group{Name: "window", Gen: genWindow},
 		vlib.Group{Name: "doc-literal", Gen: genDocLiteral},
